@@ -1,7 +1,7 @@
 """C08 - dd.autoref keeps live Functions valid and releases exactly what is
 dropped."""
 from .. import gen, oracle, tt as T
-from .base import replay  # noqa: F401
+from .base import handle_tt, replay  # noqa: F401
 from ..impl import vname
 
 RULE = ('random histories over the autoref alphabet (constructions, connectives via BDD.apply '
@@ -70,6 +70,18 @@ class AH:
                 self.ctx.violation('C08:live-changed', f'live Function {h} changed its function', self.case())
                 self.ok = False
                 return
+
+    def walk(self, when):
+        H = self.s.impl.handles[self.A]
+        for h, t in list(self.live.items()):
+            if h in H:
+                got = handle_tt(self.s, self.A, h, self.n)
+                if got != t:
+                    self.ctx.violation('C08:handle-view',
+                                       f'{when}: live Function {h} read through its own var/low/high/'
+                                       f'negated denotes {got:#x}, expected {t:#x}', self.case())
+                    self.ok = False
+                    return
 
     def step(self):
         rng = self.ctx.rng
@@ -152,7 +164,12 @@ class AH:
         elif k < 0.95:
             s.op(A, 'gc')
         else:
-            s.op(A, 'reorder', None)
+            # a client traversal through the handles' own var/low/high/negated gives
+            # the same function before and after the reordering, on the SAME objects
+            self.walk('before reorder')
+            s.op(A, 'reorder', None if rng.random() < 0.5 else
+                 dict(zip(range(n), rng.sample(range(n), n))))
+            self.walk('after reorder')
         if s.last_result() == 'err:needs_reordering':
             self.ctx.violation('C08:signal', 'the reordering signal reached the caller', self.case())
             self.ok = False
